@@ -25,6 +25,59 @@ type SelfTestResult struct {
 	Status   string   `json:"status"` // caught | missed | stale (patch no longer applies to the current tree)
 }
 
+// runRenameRobustness: thorough tier. Re-runs the property's check on a behaviour-preserving variant of the current tree
+// (every local/parameter/receiver renamed, a no-op closure call inserted at the top of every function, every position
+// shifted by a line) laid over /repo as an overlay. Any report on the variant is a false alarm of a rule that depends on
+// spelling, position or closure numbering; it is recorded in the evidence, never turned into a VIOLATION.
+func runRenameRobustness(p *Prog, prop, repo, verif string) map[string]any {
+	exe, err := os.Executable()
+	if err != nil {
+		return nil
+	}
+	tmp, err := os.MkdirTemp("", "junocheck-variant-")
+	if err != nil {
+		return nil
+	}
+	defer os.RemoveAll(tmp)
+	os.Setenv("VERIF_VARIANT_NOOP", "1")
+	n, err := writeRenamedVariant(p, filepath.Join(tmp, "files"), "Zq")
+	os.Unsetenv("VERIF_VARIANT_NOOP")
+	if err != nil {
+		return map[string]any{"error": err.Error()}
+	}
+	sv := filepath.Join(tmp, "verif")
+	os.MkdirAll(sv, 0o755)
+	if kb, err := os.ReadFile(filepath.Join(verif, "known_findings.json")); err == nil {
+		os.WriteFile(filepath.Join(sv, "known_findings.json"), kb, 0o644)
+	}
+	cmd := exec.Command(exe, "-prop", prop, "-repo", repo, "-verif", sv, "-tier", "quick", "-nofixtures")
+	cmd.Env = append(os.Environ(), "VERIF_MUTANT_DIR="+filepath.Join(tmp, "files"), "VERIF_TIER=quick")
+	out, _ := cmd.CombinedOutput()
+	var alarms []string
+	for _, m := range regexp.MustCompile(`(?m)^(?:VIOLATION|UNDECIDED) (C\d\d/[\w-]+ construct=.*)$`).FindAllStringSubmatch(string(out), -1) {
+		a := m[1]
+		if len(a) > 200 {
+			a = a[:200]
+		}
+		alarms = append(alarms, a)
+	}
+	if strings.Contains(string(out), "BROKEN-LOAD") {
+		alarms = append(alarms, "variant did not load")
+	}
+	for _, a := range alarms {
+		fmt.Printf("ROBUSTNESS-ALARM property=%s on the renamed variant: %s\n", prop, a)
+	}
+	if alarms == nil {
+		alarms = []string{}
+	}
+	return map[string]any{
+		"what":          "behaviour-preserving variant of the current tree (locals/params/receivers renamed, no-op closure call at the top of every function, positions shifted), overlaid and re-checked; every report on it is a false alarm of the rule",
+		"files_varied":  n,
+		"false_alarms":  len(alarms),
+		"alarm_samples": alarms,
+	}
+}
+
 func mutantOverlay(repo string) map[string][]byte {
 	dir := os.Getenv("VERIF_MUTANT_DIR")
 	if dir == "" {
